@@ -1,5 +1,6 @@
 import NA.Model.Linux
 import NA.Spec.LinuxOracle
+import NA.Proofs.C05Final
 import NA.Core.IOUtil
 /-! Driver for C05.  One case per line; fields separated by U+001E, lines inside a field by U+001F.
 
@@ -124,7 +125,14 @@ def specAnswer (fs : List Str) : Option Str :=
       let cfg : KCfg := { protoNames := isT names }
       let d ← parseRS drs
       let t ← parseRS trs
-      let why := classify cfg t
+      -- a target is inside the proved class iff every rule satisfies the hypotheses of
+      -- `kernel_roundtrip_partial` (NA.C05.RuleOK, decidable); otherwise name the reason
+      let rules := t.flatMap fun tb => tb.chains.flatMap (·.rules)
+      let why := (rules.flatMap fun r =>
+        if decide (NA.C05.RuleOK cfg r) then []
+        else if !(decide ((userOpts r).map fun o => (NA.C05.pkv o).1).Nodup &&
+                  decide ((kernelOpts cfg r).map fun o => (NA.C05.pkv o).1).Nodup) then [s "repeated_option_key"]
+        else [s "option_outside_grammar"]).eraseDups
       some (joinFS [s "OK", joinLS (devText cfg (parseDevRoutes dr) d), joinLS (userText t),
         if why.isEmpty then s "1" else s "0", joinWith [','] why])
     else none
